@@ -1,0 +1,36 @@
+//go:build verif
+
+package main
+
+// Contracts for the verification machinery in /verif (govc).  This file is
+// comment-only and is compiled only with -tags verif.
+
+// The fingerprint in force is the first non-empty of: the argument (flag), the
+// environment variable, the built-in value; an empty environment variable does
+// not hide a built-in pin (C13: "when a fingerprint is configured ...").
+//@ func chooseFingerprint(fingerprint) (res)
+//@   props C13
+//@   ghost n int = 0
+//@   ghost r0 string = ""
+//@   on call cmp.Or(vals) (r): assert(n == 0 && len(vals) == 3 && vals[0] == fingerprint && vals[1] == os.Getenv(FingerprintEnvVar) && vals[2] == Fingerprint, "first_non_empty_of_flag_environment_builtin"); r0 = r; n++
+//@   ensures chosen_by_first_non_empty: n == 1 && res == r0
+
+//@ func chooseC2(c2) (res)
+//@   props C13
+//@   ghost n int = 0
+//@   ghost r0 string = ""
+//@   on call cmp.Or(vals) (r): assert(n == 0 && len(vals) == 3 && vals[0] == c2 && vals[1] == os.Getenv(C2EnvVar) && vals[2] == C2, "first_non_empty_of_flag_environment_builtin"); r0 = r; n++
+//@   ensures chosen_by_first_non_empty: n == 1 && res == r0
+
+// shell hands exactly the chosen fingerprint and address to the library.
+//@ func shell(ctx, c2, fingerprint, args) (err)
+//@   props C13
+//@   ghost fp string = ""
+//@   ghost nFP int = 0
+//@   ghost addr string = ""
+//@   ghost nGo int = 0
+//@   ghost rerr error = nil
+//@   on call chooseFingerprint(f) (r): assert(f == fingerprint && nFP == 0, "fingerprint_chosen_from_the_callers_value"); fp = r; nFP++
+//@   on call chooseC2(a) (r): assert(a == c2, "address_chosen_from_the_callers_value"); addr = r
+//@   on call simpleshell.GoSimple(c, a, f, cmdline) (e): assert(nFP == 1 && f == fp && a == addr && nGo == 0, "library_gets_the_chosen_pin"); rerr = e; nGo++
+//@   ensures runs_the_library_once_and_reports_its_error: nGo == 1 && err == rerr
